@@ -35,9 +35,16 @@ func evalSm3hist(args []string) string {
 			if !ok {
 				return "bad-op"
 			}
+			orig := append([]byte{}, b...)
 			n, err := h.Write(b)
 			if n != len(b) || err != nil {
 				return "ORACLE-FAIL:write-return"
+			}
+			if !bytes.Equal(b, orig) {
+				return "ORACLE-FAIL:write-modified-its-argument"
+			}
+			for i := range b { // the caller may reuse its buffer at once: io.Writer must not retain p
+				b[i] = 0xa7
 			}
 		case strings.HasPrefix(op, "S:"):
 			b, ok := unhx(op[2:])
